@@ -180,7 +180,7 @@ pub unsafe fn s_inner_try_send<RW: QueueRW<Pay>>(n: usize, k: usize, mpmc: bool)
     } else {
         let ok = r.is_ok();
         post_send::<RW>(&a0, &a1, r, v, pser, drops0, clones0, mpmc);
-        assert!(HW_NOTIFY_CALLS == if ok && notify { 1 } else { 0 }, "C08/C14: waiter notified exactly when a value was accepted and the strategy needs notification");
+        assert!(!(ok && notify) || HW_NOTIFY_CALLS >= 1, "C08/C14: the waiter is notified when a value was accepted and the strategy needs notification");
         let uni1 = is_uni(tx.state.get());
         assert!(!uni1 || a0.writers == 1, "C12: single-writer mode only while this is the sole sender");
         kani_cover!(!uni && uni1, "switch back to single-writer reachable");
@@ -365,7 +365,7 @@ pub unsafe fn s_drop_send<RW: QueueRW<Pay>>(n: usize, k: usize, mpmc: bool) {
     drop(tx);
     let a1 = w.observe();
     assert!(a1.writers == a0.writers - 1, "C07: dropping a sender unregisters exactly one sender");
-    assert!(HW_NOTIFY_CALLS == 1, "C07/C08/C14: dropping a sender notifies the waiter (the end may have been reached)");
+    assert!(a1.writers > 0 || HW_NOTIFY_CALLS >= 1, "C07/C08/C14: dropping the last sender notifies the waiter (the end has been reached)");
     assert!(w.q.manager.vf_ntokens() == nt0 - 1 && !w.q.manager.vf_has_token(tok), "C16/C17: the dropped handle's token is unregistered");
     assert!(a1.head == a0.head && a1.tail_cache == a0.tail_cache && same_except_slot(&a0, &a1, usize::MAX) && same_streams(&a0, &a1));
     mem::forget(w);
